@@ -64,6 +64,31 @@ theorem pos_of_check (rows : List Row) (levels : List Level) (ep : Bool)
   simp only [checkB, Bool.and_eq_true, decide_eq_true_eq] at h
   exact h.2
 
+/-- occurrence-indicator code of a symbol of the table: `?` 1, `*` 2, `+` 3 -/
+def occOfRow (rows : List Row) (o : Nat) : Option Nat :=
+  match (rows[o]?).map (·.sym) with
+  | some "?" => some 1
+  | some "*" => some 2
+  | some "+" => some 3
+  | _ => none
+
+/-- the typed operators that take a SingleType ([18] CastableExpr, [19] CastExpr) -/
+def singleRow (rows : List Row) (o : Nat) : Bool :=
+  match (rows[o]?).map (·.sym) with
+  | some "cast" => true
+  | some "castable" => true
+  | _ => false
+
+/-- the token list after the lexical constraint on occurrence indicators (`EPV.Syn.absorbOcc`) -/
+def normalize (rows : List Row) (toks : List Tok) : List Tok := absorbOcc (occOfRow rows) (singleRow rows) toks
+
+/-- F04j trigger: after the occurrence-indicator normalisation, a type that carries an indicator is directly
+followed by a `?`, `*` or `+` operator token (`item()* * 2`, `node()+ + 1`, `array(*)+ + 1`) -/
+def trigF04j (rows : List Row) : List Tok → Bool
+  | .ty n :: .op o :: rest => (tyOcc n != 0 && (occOfRow rows o).isSome) || trigF04j rows (.op o :: rest)
+  | _ :: rest => trigF04j rows rest
+  | [] => false
+
 /-- the operator token of symbol `s` in a generated table (row index looked up by symbol) -/
 def opTok (rows : List Row) (s : String) : Tok := .op (rows.findIdx (·.sym == s))
 
